@@ -25,11 +25,13 @@ pub(crate) fn ten_to_the_u64(pow: u8) -> u64 {
 /// Return 10^pow
 pub(crate) fn ten_to_the_uint(pow: u64) -> BigUint {
     if pow < 20 {
+        verif_probe!(TenPow_Lt20);
         return BigUint::from(10u64.pow(pow as u32));
     }
 
     // linear case of 10^pow = 10^(19 * count + rem)
     if pow < 590 {
+        verif_probe!(TenPow_Lt590);
         let ten_to_nineteen = 10u64.pow(19);
 
         // count factors of 19
@@ -47,6 +49,7 @@ pub(crate) fn ten_to_the_uint(pow: u64) -> BigUint {
     }
 
     // use recursive algorithm where linear case might be too slow
+    verif_probe!(TenPow_Recursive);
     let (quotient, rem) = pow.div_rem(&16);
     let x = ten_to_the_uint(quotient);
 
@@ -83,12 +86,17 @@ pub(crate) fn count_decimal_digits(int: &BigInt) -> u64 {
 /// Return number of decimal digits in unsigned integer
 pub(crate) fn count_decimal_digits_uint(uint: &BigUint) -> u64 {
     if uint.is_zero() {
+        verif_probe!(Digits_Zero);
         return 1;
     }
     let mut digits = (uint.bits() as f64 / LOG2_10) as u64;
     // guess number of digits based on number of bits in UInt
     let mut num = ten_to_the_uint(digits);
+    verif_probe_if!(*uint < num, Digits_EstimateExact);
+    verif_loop_guard!(corrections);
     while *uint >= num {
+        verif_loop_tick!(corrections, DigitsCorrection, 4);
+        verif_probe!(Digits_Corrected);
         num *= 10u8;
         digits += 1;
     }
